@@ -134,6 +134,20 @@ func cmdCSV(o *Out, line string, f []string) {
 	if ob.err != nil || perr != nil {
 		return
 	}
+	allHaveMetrics := len(ob.keys) > 0
+	for _, ks := range ob.keys {
+		if len(ks) == 0 {
+			allHaveMetrics = false // a chunk without metrics has an empty header line: not judged here
+		}
+	}
+	if derr == nil && allHaveMetrics {
+		for i, fl := range files {
+			if fl == "X" || fl == "" {
+				o.violation(line, "a file DumpCSV wrote is empty or is not well-formed CSV (header + rows)", map[string]int{"file": i, "files": len(files)})
+				return
+			}
+		}
+	}
 	// expected: rotate exactly when the number of metrics changes
 	changes := 0
 	for i := 1; i < len(ob.keys); i++ {
